@@ -8,8 +8,10 @@ import KalignModel.Props.C16
 #print axioms Kalign.C16.history_independent_nth
 #print axioms Kalign.C16.outputs_ignore_initial_globals
 #print axioms Kalign.C16.ledger_invariant
-#print axioms Kalign.C16.ledger_balanced_partial
+#print axioms Kalign.C16.ledger_balanced
 #print axioms Kalign.C16.ledger_empty_of_no_handles
-#print axioms Kalign.C16.ledger_leak_on_reader_failure
+#print axioms Kalign.C16.read_call_balanced
+#print axioms Kalign.C16.read_nothing_keeps_msa
+#print axioms Kalign.C16.read_call_leaked_before_4c3a0a7
 #print axioms Kalign.Api.step_independent
 #print axioms Kalign.Api.step_inv
